@@ -567,3 +567,76 @@ Theorem C01_src_tokenizer_flags : forall f : rule,
   /\ Struct_Tokens_Proofs.teval f false TokensGen.skip_last = negb (is_right_anchor f).
 Proof. exact Struct_Tokens_Proofs.skip_flags. Qed.
 Print Assumptions C01_src_tokenizer_flags.
+
+(* ------------------------------------------------------------------ the token guarantee for
+   hostname-anchored rules with a regex-type pattern (`||example.com/ads/*/banner^`), and ONE
+   list-level theorem over the whole class of rules for which TG is now proved from the concrete
+   tokenizer and matchers (Tok_HostRegex_Model.tg_class: everything except /re/ rules,
+   $match-case, the $removeparam name fallback [see C14_engine_rewritten_mixed] and fused rules) *)
+From Adb Require Import Tok_Ext_Model Tok_Ext_Proofs Tok_HostRegex_Model Tok_HostRegex_Proofs.
+From Adb Require C03_Model.
+
+Theorem C01_regex_tokens_covered_at : forall ra s pre suf t,
+  C02_Model.m ra (C02_Model.toks s) suf -> all_ascii (pre ++ suf) = true -> ~ In STAR (pre ++ suf) ->
+  head_blocked suf -> In t (tku false (negb ra) s 0 None None) -> In t (tku false false (pre ++ suf) 0 None None).
+Proof. exact regex_tokens_covered_at. Qed.
+Print Assumptions C01_regex_tokens_covered_at.
+
+Theorem C01_hostregex_pattern_tokens_covered : forall la ra w hn s url host t,
+  hostregex_match la ra w hn s url host = true -> host_at url host -> all_ascii url = true -> ~ In STAR url ->
+  In t (tku (negb la) (negb ra) s 0 None None) -> In t (tku false false url 0 None None).
+Proof. exact hostregex_pattern_tokens_covered. Qed.
+Print Assumptions C01_hostregex_pattern_tokens_covered.
+
+Theorem C01_check_pattern_hostregex : forall re_ok re_match sh (s hn : str) r,
+  C02_Model.s_hn sh = true -> C02_Model.s_rx sh = true -> C02_Model.s_cr sh = false -> s <> [] ->
+  C02_Model.re_std re_ok re_match (C02_Model.translate s (C02_Model.s_la sh) (C02_Model.s_ra sh)) (C02_Model.s_la sh) (C02_Model.s_ra sh) (C02_Model.toks s) ->
+  C02_Model.no_nl (C02_Model.get_url r (C02_Model.s_mc sh)) = true ->
+  C02_Model.check_pattern_sh re_ok re_match sh [s] (Some hn) r
+  = hostregex_match (C02_Model.s_la sh) (C02_Model.s_ra sh) (C02_Model.s_wild sh) hn s (C02_Model.get_url r (C02_Model.s_mc sh)) (C02_Model.r_host r).
+Proof. exact check_pattern_hostregex. Qed.
+Print Assumptions C01_check_pattern_hostregex.
+
+Theorem C01_token_guarantee_all : forall re_ok re_match h f rq r odu ondu,
+  let url := lower_str (C02_Model.r_url r) in
+  tg_class f = true -> options_ok f odu ondu rq = true -> pattern_ok re_ok re_match f r = true ->
+  (forall s, rfilter f = FSimple s -> is_regex f = true ->
+     C02_Model.re_std re_ok re_match (C02_Model.translate s (is_left_anchor f) (is_right_anchor f)) (is_left_anchor f) (is_right_anchor f) (C02_Model.toks s)) ->
+  (needs_source f = true -> C03_Model.rq_src rq <> None) ->
+  (scheme_restricted f = true -> C03_Model.rq_http rq || C03_Model.rq_https rq = true) ->
+  scheme_tie rq url -> host_at url (C02_Model.r_host r) -> C02_Model.no_nl (C02_Model.r_url r) = true ->
+  all_ascii url = true -> ~ In STAR url -> within_cutoff false false url ->
+  covered h (probes h (C03_Model.rq_src rq) url) f.
+Proof. exact token_guarantee_all. Qed.
+Print Assumptions C01_token_guarantee_all.
+
+Theorem C01_TG_all_list : forall re_ok re_match h matches rq r L,
+  std_request rq r -> model_hits re_ok re_match matches rq r L -> regex_contract re_ok re_match L ->
+  (forall f, In f L -> tg_class f = true) ->
+  TG h matches (probes h (C03_Model.rq_src rq) (lower_str (C02_Model.r_url r))) L.
+Proof. exact TG_all_list. Qed.
+Print Assumptions C01_TG_all_list.
+
+Theorem C01_TG_all_hits : forall re_ok re_match h matches rq r L,
+  std_request rq r -> model_hits re_ok re_match matches rq r L -> regex_contract re_ok re_match L ->
+  (forall f, In f L -> matches f = true -> tg_class f = true) ->
+  TG h matches (probes h (C03_Model.rq_src rq) (lower_str (C02_Model.r_url r))) L.
+Proof. exact TG_all_hits. Qed.
+Print Assumptions C01_TG_all_hits.
+
+Theorem C01_engine_eq_rule_by_rule_subset_all : forall re_ok re_match h matches rq r mr fc L T,
+  id_inj L -> std_request rq r -> model_hits re_ok re_match matches rq r L -> regex_contract re_ok re_match L ->
+  (forall f, In f L -> tg_class f = true) ->
+  blocker_check_p matches (probes h (C03_Model.rq_src rq) (lower_str (C02_Model.r_url r))) mr fc (tags_with_set h (blocker_new h L) T)
+  = spec_verdict_p matches mr fc L T.
+Proof. exact engine_eq_spec_p_all. Qed.
+Print Assumptions C01_engine_eq_rule_by_rule_subset_all.
+
+(* a rule with a hostname but without the hostname-anchor flag (never built by the parser) matches
+   every request yet is indexed under its hostname tokens: the class condition is necessary *)
+Theorem C01_host_without_anchor_refuted : exists f rq r,
+  rhost f <> None /\ flag f M_IS_HOSTNAME_ANCHOR = false /\ options_ok f None None rq = true /\
+  pattern_ok (fun _ => true) (fun _ _ => false) f r = true /\
+  ~ covered seahash (probes seahash (C03_Model.rq_src rq) (lower_str (C02_Model.r_url r))) f.
+Proof. exact host_without_anchor_refuted. Qed.
+Print Assumptions C01_host_without_anchor_refuted.
